@@ -38,6 +38,7 @@ func (l *LRUCache) SetDelCallBackFn(f func(key, value interface{})) {
 func (l *LRUCache) Store(key, value interface{}) {
 	l.rwMu.Lock()
 	defer l.rwMu.Unlock()
+	verifLRU(l, "Store")
 
 	node, ok := l.nodeMap[key]
 	if ok {
@@ -58,6 +59,7 @@ func (l *LRUCache) Store(key, value interface{}) {
 func (l *LRUCache) Load(key interface{}) (data interface{}, ok bool) {
 	l.rwMu.Lock()
 	defer l.rwMu.Unlock()
+	verifLRU(l, "Load")
 
 	node, ok := l.nodeMap[key]
 	if !ok {
@@ -71,6 +73,7 @@ func (l *LRUCache) Load(key interface{}) (data interface{}, ok bool) {
 func (l *LRUCache) Delete(key interface{}) {
 	l.rwMu.Lock()
 	defer l.rwMu.Unlock()
+	verifLRU(l, "Delete")
 	node, ok := l.nodeMap[key]
 	if !ok {
 		return
@@ -111,6 +114,7 @@ func (l *LRUCache) delete(node *list.Element) {
 func (l *LRUCache) Len() int {
 	l.rwMu.RLock()
 	defer l.rwMu.RUnlock()
+	verifLRU(l, "Len")
 	if l.list.Len() != len(l.nodeMap) {
 		return -1
 	}
@@ -118,6 +122,7 @@ func (l *LRUCache) Len() int {
 }
 
 func (l *LRUCache) Dump() string {
+	verifLRU(l, "Dump")
 	head := l.list.Front()
 	buf := newStrBuf()
 	defer putStrBuf(buf)
